@@ -43,6 +43,29 @@ mod tape {
         };
         v.to_le_bytes()[..n].to_vec()
     }
+    /// an 8-byte draw that, in search mode, is uniform in lo..hi
+    pub fn next_in(lo: u64, hi: u64) -> u64 {
+        let searching = SEARCH.with(|s| s.borrow().is_some());
+        if searching {
+            let v = SEARCH.with(|s| {
+                let mut s = s.borrow_mut();
+                let mut st = s.unwrap();
+                let v = lo + rng(&mut st) % (hi - lo);
+                *s = Some(st);
+                v
+            });
+            TAPE.with(|t| {
+                let mut t = t.borrow_mut();
+                t.0.push(v.to_le_bytes().to_vec());
+                t.1 += 1;
+            });
+            return v;
+        }
+        let b = next(8);
+        let mut a = [0u8; 8];
+        a.copy_from_slice(&b);
+        u64::from_le_bytes(a)
+    }
     pub fn next(n: usize) -> Vec<u8> {
         let searching = SEARCH.with(|s| s.borrow().is_some());
         TAPE.with(|t| {
@@ -125,6 +148,23 @@ draw!(any_u32, u32, 4);
 draw!(any_u64, u64, 8);
 draw!(any_i64, i64, 8);
 draw!(any_usize, usize, 8);
+
+/// A value in `lo..hi` (`hi` exclusive, `lo < hi`). Under Kani: `any()` constrained by an
+/// assumption; in native search mode: drawn uniformly from the range (so that scheduling and
+/// ordering choices are hit by the search); in replay: the recorded value.
+#[cfg(kani)]
+#[inline(always)]
+pub fn any_usize_in(lo: usize, hi: usize) -> usize {
+    let r: usize = kani::any();
+    kani::assume(r >= lo && r < hi);
+    r
+}
+#[cfg(not(kani))]
+pub fn any_usize_in(lo: usize, hi: usize) -> usize {
+    let r = tape::next_in(lo as u64, hi as u64) as usize;
+    assume(r >= lo && r < hi);
+    r
+}
 
 #[cfg(kani)]
 #[inline(always)]
